@@ -25,7 +25,10 @@ func c11ArchiveLastWins(c *Ctx) {
 		}
 		sf := p.SSAFunc(fr.Obj)
 		k := 0
-		for _, f := range allSSAFuncs(sf) {
+		for _, f := range archiveReaderFuncs(sf) {
+			if f.Name() == "copyZipFile" {
+				continue
+			}
 			for _, call := range callsIn(f) {
 				callee := staticCalleeObj(call.Call)
 				if callee == nil {
@@ -40,8 +43,15 @@ func c11ArchiveLastWins(c *Ctx) {
 				for _, ge := range guardingEdges(call.Instr.Block()) {
 					sliceBack(ge.If.Cond, func(x ssa.Value) bool {
 						if lk, ok := x.(*ssa.Lookup); ok {
-							if mm, ok := stripConv(lk.X).(*ssa.MakeMap); ok && mm.Parent() == f {
-								seenSets = append(seenSets, "map made at "+p.Pos(mm.Pos()))
+							switch mm := stripConv(lk.X).(type) {
+							case *ssa.MakeMap:
+								if mm.Parent() == f {
+									seenSets = append(seenSets, "map made at "+p.Pos(mm.Pos()))
+								}
+							case *ssa.Parameter:
+								if f != sf { // a set handed down to the per-entry helper
+									seenSets = append(seenSets, "map parameter "+mm.Name())
+								}
 							}
 						}
 						return true
